@@ -720,19 +720,87 @@ pub fn hid_replay(case: &Value) -> Result<Vec<Finding>, String> {
     Ok(out)
 }
 
+// ------------------------------------------------------------------------------------------
+// COSE keys as *structs* (a caller can build what the byte decoder would refuse, e.g. repeated
+// labels): every combination of 0..2 entries per coordinate with lengths/types from a menu, both
+// label orders, with and without unrelated parameters
+
+fn cose_struct_sweep(stats: &mut Stats) {
+    let (x, y) = crate::drivers::public_xy_from_scalar(&crate::drivers::fixed_scalar(1));
+    let menu = |good: &[u8; 32]| -> Vec<Cbor> {
+        vec![Cbor::Bytes(good.to_vec()), Cbor::Bytes(vec![]), Cbor::Bytes(good[..31].to_vec()), Cbor::Bytes([&good[..], &[1u8][..]].concat()), Cbor::Bytes(vec![7; 66]), Cbor::Text("x".into()), Cbor::Integer(5.into()), Cbor::Null]
+    };
+    let per_coord = |good: &[u8; 32]| -> Vec<Vec<Cbor>> {
+        let m = menu(good);
+        let mut v: Vec<Vec<Cbor>> = vec![vec![]];
+        for a in &m {
+            v.push(vec![a.clone()]);
+            for b in &m {
+                v.push(vec![a.clone(), b.clone()]);
+            }
+        }
+        v
+    };
+    let xs = per_coord(&x);
+    let ys = per_coord(&y);
+    for (xi, xe) in xs.iter().enumerate() {
+        for (yi, ye) in ys.iter().enumerate() {
+            for order in 0..3u8 {
+                let mut params: Vec<(coset::Label, Cbor)> = vec![];
+                let xp: Vec<_> = xe.iter().map(|v| (coset::Label::Int(-2), v.clone())).collect();
+                let yp: Vec<_> = ye.iter().map(|v| (coset::Label::Int(-3), v.clone())).collect();
+                match order {
+                    0 => {
+                        params.extend(xp);
+                        params.extend(yp);
+                    }
+                    1 => {
+                        params.extend(yp);
+                        params.extend(xp);
+                    }
+                    _ => {
+                        // interleaved, with unrelated parameters in between
+                        params.push((coset::Label::Int(-1), Cbor::Integer(1.into())));
+                        let mut xi2 = xp.into_iter();
+                        let mut yi2 = yp.into_iter();
+                        loop {
+                            let (a, b) = (xi2.next(), yi2.next());
+                            if a.is_none() && b.is_none() {
+                                break;
+                            }
+                            params.extend(a);
+                            params.push((coset::Label::Text("t".into()), Cbor::Null));
+                            params.extend(b);
+                        }
+                    }
+                }
+                let key = coset::CoseKey { kty: coset::RegisteredLabel::Assigned(iana::KeyType::EC2), alg: Some(coset::RegisteredLabelWithPrivate::Assigned(iana::Algorithm::ES256)), params, ..Default::default() };
+                let case = json!({"cose_struct": {"x_entries": xi, "y_entries": yi, "order": order}});
+                stats.case(&case.to_string(), true, "cose-struct");
+                if let Err(p) = par::catch(|| {
+                    let _ = passkey_authenticator::public_key_der_from_cose_key(&key);
+                }) {
+                    stats.finding(Finding::new(format!("decoder=public_key_der_from_cose_key(struct)/site={}/kind={}", site_file(&p), panic_class(&p)), format!("converter panicked on a key with {} x entries and {} y entries: {p}", xe.len(), ye.len()), case));
+                }
+            }
+        }
+    }
+}
+
 pub fn run(ctx: &Ctx) -> Result<Run, String> {
     let sp = Space::new(ctx.tier);
     let n = sp.len();
     let cfg = IsoConfig { prop: "C15".into(), mode: "sweep".into(), tier: ctx.tier.name(), workers: ctx.threads, segment: (n / (ctx.threads * 8)).max(1000), every: 2000, stack_mb: 8 };
     let mut stats = iso::run(&sp, &cfg)?;
     stats.count("isolated_cases", n as u64);
+    cose_struct_sweep(&mut stats);
     let (hs, ht) = hid_search(ctx.tier, ctx.threads, &mut stats);
     stats.count("hid_states", hs);
     stats.count("hid_transitions", ht);
     let ndec = sp.decs.len();
     let mut run = Run::from_stats(
         "exploration",
-        "for each of 27 public decoders (CTAP2 CBOR messages, authenticator data, WebAuthn JSON, base64, U2F raw messages, COSE-key converter, fingerprints, asset links, RP-ID verification, public-suffix lookups): (1) all byte strings up to length 2 (3 thorough) / all strings over an 8-symbol alphabet up to length 5 (7 thorough); (2) every single deviation of valid seed encodings of every message type: truncation at every position, every byte value at every position (CBOR/binary; a 17-symbol menu for JSON/text), and splices at every position of CBOR heads of every major type with declared lengths 2^8..2^64-1 / indefinite, 300- and 100000-deep nesting, JSON structure/number/escape fragments, long and dotted labels (thorough: all pairs of byte-level deviations on short seeds); run in isolated worker processes with a counting allocator (single request > 16 MiB or > 256 MiB in total = out of proportion; > 1 GiB refused), 8 MiB stack, per-case watchdog; (3) CTAPHID: BFS over packet sequences on the real ChannelHandler (alphabet: 2 channels x 8 init heads + 4 continuation sequence numbers x 13 packet sizes), deduplicated on the hook snapshot. Non-trivial = distinct non-empty input",
+        "for each of 27 public decoders (CTAP2 CBOR messages, authenticator data, WebAuthn JSON, base64, U2F raw messages, COSE-key converter, fingerprints, asset links, RP-ID verification, public-suffix lookups): (1) all byte strings up to length 2 (3 thorough) / all strings over an 8-symbol alphabet up to length 5 (7 thorough); (2) every single deviation of valid seed encodings of every message type: truncation at every position, every byte value at every position (CBOR/binary; a 17-symbol menu for JSON/text), and splices at every position of CBOR heads of every major type with declared lengths 2^8..2^64-1 / indefinite, 300- and 100000-deep nesting, JSON structure/number/escape fragments, long and dotted labels (thorough: all pairs of byte-level deviations on short seeds); run in isolated worker processes with a counting allocator (single request > 16 MiB or > 256 MiB in total = out of proportion; > 1 GiB refused), 8 MiB stack, per-case watchdog; (2b) COSE keys built as structs (0..2 entries per coordinate from a menu of lengths and types, three label orders, repeated labels included) given to the converter directly; (3) CTAPHID: BFS over packet sequences on the real ChannelHandler (alphabet: 2 channels x 8 init heads + 4 continuation sequence numbers x 13 packet sizes), deduplicated on the hook snapshot. Non-trivial = distinct non-empty input",
         true,
         stats,
     );
@@ -746,6 +814,11 @@ pub fn run(ctx: &Ctx) -> Result<Run, String> {
 pub fn replay(_ctx: &Ctx, case: &Value) -> Result<Vec<Finding>, String> {
     if case.get("packets").is_some() {
         return hid_replay(case);
+    }
+    if case.get("cose_struct").is_some() {
+        let mut st = Stats::new();
+        cose_struct_sweep(&mut st);
+        return Ok(st.findings.into_values().map(|x| x.0).filter(|f| f.case == *case).collect());
     }
     let idx = case["index"].as_u64().ok_or("bad C15 case")? as usize;
     // the index is relative to the tier's enumeration: find the tier whose case matches
